@@ -21,27 +21,25 @@ def R(s):
 
 def private_model():
     """The model runner is a shared artefact that other checks rebuild; take a private copy under the coq lock.
-    If a work-in-progress part of another property breaks the full build, build the stable parts plus this one."""
+    If a work-in-progress part of another property breaks the full build: the stable parts plus this one, then this one alone."""
     dst = os.path.join(build.scratch_root(), "verif-model-c15-%d" % os.getpid())
     last = "?"
     for attempt in range(3):
+        only = None if attempt == 0 else (set(vlib._stable() or ()) if attempt == 1 else set()) | {"30_limits"}
         lock = vlib.coq_lock()
         try:
-            try:
-                if attempt > 0:
-                    raise vlib.CoqError("retry with the stable parts")
-                out = vlib._build_model_once(None)
-            except vlib.CoqError:
-                st = set(vlib._stable() or ())
-                out = vlib._build_model_once(st | {"30_limits"})
+            out = vlib._build_model_once(only)
             shutil.copy2(out, dst)
+        except (vlib.CoqError, OSError) as e:
+            last = str(e)[-1500:]
+            continue
         finally:
             lock.close()
         lines, _ = vlib.run_lines(dst, ["lim consts"])
         last = lines[0] if lines else "?"
         if last.startswith("vm_check_cycles="):
             return dst
-    raise vlib.CoqError("model runner has no C15 commands: " + last)
+    raise vlib.CoqError("model runner with the C15 commands cannot be built: " + last)
 
 
 def parse_scan(line):
@@ -707,8 +705,9 @@ def _run(chk, K, h, model, quick):
     # ================================================================ model answers, then all comparisons
     # spacing facts, checked on the extracted functions as well (the theorem is about these)
     kq = ask("lim consts")
-    cq = [ask("lim clock %d" % i) for i in (0, 1, 4095, 4096, 8192, 12287)]
-    vq = [ask("lim vmreads 100 0"), ask("lim vmreads 99 0")]
+    KB, VC = K_block(model), K_block(model, "vm_check_cycles")
+    cq = [ask("lim clock %d" % i) for i in (0, 1, KB - 1, KB, 2 * KB, 3 * KB - 1)]
+    vq = [ask("lim vmreads %d 0" % VC), ask("lim vmreads %d 0" % (VC - 1))]
     ans, merr = vlib.run_lines(model, [q for q in mq], timeout=1200)
     _t(chk, "model_queries", tm)
     if len(ans) < len(mq) or any(a.startswith(("unknown", "exception", "usage")) for a in ans[:len(mq)]):
@@ -777,9 +776,8 @@ def replay(chk, path):
 _KB = {}
 
 
-def K_block(model):
-    if "k" not in _KB:
+def K_block(model, name="block_check_modulus"):
+    if not _KB:
         lines, _ = vlib.run_lines(model, ["lim consts"])
-        m = re.search(r"block_check_modulus=(\d+)", lines[0])
-        _KB["k"] = int(m.group(1)) if m else 4096
-    return _KB["k"]
+        _KB.update({k: int(v) for k, v in (x.split("=") for x in lines[0].split())})
+    return _KB[name]
